@@ -1031,6 +1031,10 @@ impl Director for RandomDirector {
                 return TopDec::Adv(view.now_ms + self.rng.gen_range(1..20000));
             }
             if self.chance(self.p.p_setid) {
+                // the end of the 16-bit range: the next allocations wrap (zero is no identifier)
+                if self.chance(0.25) {
+                    return TopDec::SetNextId(65535 - self.rng.gen_range(0..3));
+                }
                 // bring the identifier counter (back) onto something in flight, or just before it
                 let mut ids: Vec<u16> = Vec::new();
                 if let Some(snap) = &view.snap {
